@@ -275,6 +275,7 @@ Outcome exec_c19(const C19Case& c, bool keep_log, Stats* stats) {
   const bool faulted = !c.faults.empty() || std::any_of(c.fs.begin(), c.fs.end(), [](const FsSpec& f) { return f.kind == "fifo"; });
   std::map<const FsNode*, const FsSpec*> back;
   int64_t steps = 0;
+  bool env_was_read = false;
 
   auto run_world = [&](int chunk, std::vector<OpResult>* results, std::vector<std::string>* opens) {
     clear_zone_cache();
@@ -324,6 +325,7 @@ Outcome exec_c19(const C19Case& c, bool keep_log, Stats* stats) {
     steps += sr.steps;
     if (sr.deadlock || sr.steps_exceeded) { viol("deadlock", "world did not finish", sr.deadlock_info); out.poisoned = true; }
     *opens = fs.opens;
+    if (!env.reads.empty()) env_was_read = true;
     env.active = false; fs.active = false;
     // keep fs.nodes alive for the model (fs_resolve) until the next reset
   };
@@ -374,6 +376,19 @@ Outcome exec_c19(const C19Case& c, bool keep_log, Stats* stats) {
     set_phase("oracle");
     for (size_t i = 0; i < c.ops.size(); ++i)
       if (render(res1[i]) != render(res2[i])) { viol("c19:chunk-dependence", c.ops[i].op + "('" + c.ops[i].name + "')", "read chunk " + std::to_string(c.chunk) + ": " + render(res1[i]) + "; read chunk " + std::to_string(c.chunk2) + ": " + render(res2[i])); break; }
+  }
+  // Seam sanity: a world that resolves a non-built-in name must have reached the simulated fopen, and
+  // local_time_zone() must have read $TZ through the simulated getenv.  If not, the library no longer uses
+  // these entry points and nothing this engine says about it would be a verdict (exit 2, not 1).
+  {
+    bool needs_file = false, needs_env = false;
+    for (const C19Op& o : c.ops) {
+      int64_t off;
+      if (o.op == "load" && !builtin_name(o.name, &off)) needs_file = true;
+      if (o.op == "local") needs_env = true;
+    }
+    if (needs_file && fopen_count == 0) viol("machinery:fopen-seam-bypassed", "no fopen call reached the simulated file system", "the library opened files through an entry point this harness does not intercept");
+    if (needs_env && !env_was_read) viol("machinery:getenv-seam-bypassed", "local_time_zone() did not read its environment through getenv", "");
   }
   for (const std::string& s : opens1) ev("fopen " + s);
   out.nontrivial = true;
